@@ -1295,7 +1295,8 @@ class Compiler:
         self._leave_assignment((node.name, ))
 
         error_assignment = template(
-            "econtext[key] = cls(__exc, __tokens[__token][1:3])\n"
+            "econtext[key] = cls(__exc, __tokens[__token][1:3] "
+            "if __token is not None else (None, None))\n"
             "if handler is not None: handler(__exc)",
             cls=ErrorInfo,
             handler=load("on_error_handler"),
